@@ -150,3 +150,12 @@ claim("C02",
        "Equality of parsed with original values over all inputs, and which of several well-anchored occurrences is found, are NOT decided.",
   note="Trusted: go/ssa; the codec table (strconv/time pairs are inverses on the property's value domain); canonical rendering; the linear forms of checker/an/linprove.go.",
   design_ref="DESIGN.md §3 C02, §2 E8")
+
+claim("C12",
+  category="translation_validation",
+  technique="static schema-to-package validation (the XML schemas read as data vs. the shipped package as typed syntax, declaration by declaration) plus generator lints over go/ssa and the parsed text templates (template-field existence, accessor index agreement, index lock-step, map-order taint table, duplicate rejection, type-table agreement)",
+  text="The shipped reference package is validated against an oracle derived from the XML alone: constants, member order and value types of every message/component/header/trailer/group, accessor positions and Go types, populating constructors, pipeline wrappers, and the converse (no constant without a schema origin). "
+       "For every schema, necessary conditions on the generator source are decided: template fields exist, getter and setter share index/name/type, the accessor index tracks the constructor position on every path, required ⇔ constructor argument + setter call, groups of any depth are collected, no map order reaches the output, "
+       "the package name is the output directory's base name, duplicates are rejected before any write, the type table agrees with package fix. One recorded finding (one type per group name: NoMDEntries). NOT decided: that an arbitrary accepted schema yields a compiling package, and that the shipped package is what the generator emits — both need running the generator.",
+  note="Trusted: go/types, go/ast, go/ssa, text/template/parse, encoding/xml; the naming conventions of the generator's templates (make<Name>, New<Name>Grp, <Name>Entry) used to locate declarations.",
+  design_ref="DESIGN.md §3 C12, §2 E9")
